@@ -548,3 +548,29 @@ def xer_variant(text, rng, mode):
             if rng.chance(1, 2):
                 res.append(rng.choice([" ", "\n"]))
     return "".join(res)
+
+
+# ---------------------------------------------------------------- hand-made module: strings under tags
+
+def string_module(name="MO3"):
+    """modgen-style module of OCTET STRING types whose definitions and members carry IMPLICIT and EXPLICIT tags:
+    the shapes on which the constructed (segmented) form meets a chain of tags (OCTET_STRING_decode_ber)"""
+    from modgen import resolve, module_text
+    O = {"k": "oct", "con": None}
+    defs = [
+        ("C", dict(O, tag=("APPLICATION", 1, "IMPLICIT"))),
+        ("E", dict(O, tag=("CONTEXT", 7, "EXPLICIT"))),
+        ("E8", {"k": "ref", "ref": "E", "tag": ("CONTEXT", 8, "EXPLICIT")}),
+        ("CI", {"k": "ref", "ref": "C", "tag": ("PRIVATE", 9, "IMPLICIT")}),
+        ("S", {"k": "seq", "ms": [("a", dict(O, tag=("CONTEXT", 1, "IMPLICIT")), False),
+                                  ("b", dict(O, tag=("CONTEXT", 2, "EXPLICIT")), False),
+                                  ("c", {"k": "ref", "ref": "C"}, True),
+                                  ("e", {"k": "ref", "ref": "E", "tag": ("CONTEXT", 5, "EXPLICIT")}, True),
+                                  ("i", {"k": "ref", "ref": "E", "tag": ("CONTEXT", 6, "IMPLICIT")}, True),
+                                  ("p", O, True)]}),
+        ("L", {"k": "seqof", "con": None, "el": {"k": "ref", "ref": "E"}}),
+        ("K", {"k": "choice", "ms": [("x", {"k": "ref", "ref": "C"}, False), ("y", {"k": "ref", "ref": "E8"}, False), ("z", O, False)]}),
+    ]
+    env = dict(defs)
+    trees = {n: resolve(t, "IMPLICIT", env) for n, t in defs}
+    return {"name": name, "default": "IMPLICIT", "defs": defs, "trees": trees, "text": module_text(name, "IMPLICIT", defs)}
